@@ -191,6 +191,8 @@ class Stream(object):
 
         if not raw:
             self._setup_decompressor(response)
+        else:
+            self._decompressor = None
 
         read_strategy = self.get_read_strategy(response)
 
